@@ -163,6 +163,9 @@ pub fn pick<'a, T>(label: &'static str, items: &'a [T]) -> &'a T {
 pub fn log(args: std::fmt::Arguments<'_>) -> u64 {
     // Format outside the borrow: formatting user types may read the clock.
     let line = std::fmt::format(args);
+    if trace_enabled() {
+        eprintln!("[{}] {}", VNOW_NS.with(|c| c.get()) / 1_000_000, line);
+    }
     try_with(|s| {
         s.seq += 1;
         s.fp.write(line.as_bytes());
@@ -179,9 +182,19 @@ pub fn log(args: std::fmt::Arguments<'_>) -> u64 {
     .unwrap_or(0)
 }
 
+fn trace_enabled() -> bool {
+    static T: std::sync::OnceLock<bool> = std::sync::OnceLock::new();
+    *T.get_or_init(|| std::env::var("DSIM_TRACE").is_ok())
+}
+
 #[macro_export]
 macro_rules! ev {
     ($($arg:tt)*) => { $crate::core::sim::log(format_args!($($arg)*)) };
+}
+
+/// (events logged, draws made): changes whenever the run makes progress.
+pub fn progress_mark() -> (u64, u64) {
+    try_with(|s| (s.seq, s.draws.len() as u64)).unwrap_or((0, 0))
 }
 
 pub fn seq() -> u64 {
